@@ -199,6 +199,7 @@ structure Sess where
   nextRev : Nat      -- `current_id`: the id handed out last
   nextCom : Nat      -- `comments_manager.next_id`
   fresh : Nat := 0   -- generated paragraph / durable ids so far
+  cmap : CMap := []  -- the comment data the mappers hold: extracted once, when the session is opened
 deriving Inhabited
 
 def revMax (m : Nat) (n : Node) : Nat :=
@@ -262,7 +263,7 @@ def nextCommentId (d : Document) : Nat :=
 def Sess.open (d : Document) (author date : Str) : Sess :=
   let nd := normalize d
   { doc := { nd with hasExtended := true }, author := author, date := date, nextRev := scanRevIds nd,
-    nextCom := nextCommentId nd }
+    nextCom := nextCommentId nd, cmap := commentsMap { nd with hasExtended := true } }
 
 def Sess.newRev (s : Sess) : Sess × Rev :=
   ({ s with nextRev := s.nextRev + 1 }, ⟨natStr (s.nextRev + 1), some s.author, some s.date⟩)
@@ -403,7 +404,9 @@ end Adeu.Doc
 namespace Adeu.Doc
 open Adeu
 
-def Sess.spans (s : Sess) (clean : Bool) : List OSpan := withOffsets (buildSpans clean s.doc)
+/-- the map of the session's mapper: rebuilt from the document as it is now, with the comment data of session start
+(comments added during the session are not rendered in the text the later edits of a batch are matched against) -/
+def Sess.spans (s : Sess) (clean : Bool) : List OSpan := withOffsets (buildSpansWith s.cmap clean s.doc)
 
 def Sess.getRun (s : Sess) (r : RunRef) : Option Run := (getPara s.doc r.para).bind fun p => Doc.getRun p.nodes r.loc
 
